@@ -131,6 +131,16 @@ def _child(case, phase, home, monitor_factory):
     # the user's home moved: drop caches that remember paths
     globalcfg.GlobalConfig._DEFAULT = None
 
+    if os.environ.get('VERIF_E1_LOG'):
+        import logging
+        from cylc.flow import LOG
+        h = logging.FileHandler(os.path.join(
+            home, f'sched-{phase["index"]}.log'))
+        h.setFormatter(logging.Formatter('%(levelname)s %(message)s'))
+        LOG.addHandler(h)
+        LOG.setLevel(logging.DEBUG if os.environ['VERIF_E1_LOG'] == '2'
+                     else logging.INFO)
+
     world_path = phase['world_path']
     if os.path.exists(world_path):
         world = W.JobWorld.load(case, world_path)
@@ -149,6 +159,13 @@ def _child(case, phase, home, monitor_factory):
             m.install(drv)
         if hasattr(m, 'on_event'):
             drv.bus.listeners.append(m.on_event)
+
+    from vlib.e1 import dbshim
+    counter = dbshim.install()
+    counter.n = 0
+    counter.kill_at = phase.get('kill_at_stmt')
+    counter.on_kill = lambda kind: drv.hard_kill(f'db:{kind}')
+    drv.db_counter = counter
 
     FakePool = W.make_fake_pool_class(SubProcPool)
     FakePool.driver = drv
